@@ -4,6 +4,643 @@ All declarations here live in namespace `Tickit.Sync` to avoid clashes.
 -/
 import TickitModel.Lemmas.FlatLemmas
 
+set_option linter.unusedSectionVars false
+
 namespace Tickit.Sync
+
+open Tickit
+
+variable {Val : Type} [DecidableEq Val]
+
+/-! ### dictionaries -/
+
+section Dict
+
+variable {κ β : Type} [DecidableEq κ]
+
+theorem nodup_akeys_filter {m : List (κ × β)} (hn : (akeys m).Nodup) (p : κ × β → Bool) :
+    (akeys (m.filter p)).Nodup :=
+  hn.sublist (List.Sublist.map _ List.filter_sublist)
+
+theorem nodup_akeys_normDict (items : List (Port × Val)) : (akeys (normDict items)).Nodup :=
+  nodup_akeys_aupdate (by simp) items
+
+theorem nodup_akeys_outChanges {last outs : List (Port × Val)} (hn : (akeys outs).Nodup) :
+    (akeys (outChanges last outs)).Nodup := by
+  unfold outChanges
+  exact nodup_akeys_filter hn _
+
+/-- lookup in the `Output.changes`: the value reported now, provided it differs from the
+previous report. -/
+theorem alookup_outChanges {last outs : List (Port × Val)} (hn : (akeys outs).Nodup) (p : Port)
+    (v : Val) :
+    alookup (outChanges last outs) p = some v ↔ alookup outs p = some v ∧ alookup last p ≠ some v := by
+  rw [alookup_eq_some_iff_mem (nodup_akeys_outChanges hn), changed_iff, alookup_eq_some_iff_mem hn]
+
+/-- the ghost log after one report of component `c` with the dict `outs`. -/
+theorem alookup_foldl_report (c : Comp) {outs : List (Port × Val)} (hn : (akeys outs).Nodup)
+    (rep : List ((Comp × Port) × Val)) (a : Comp) (p : Port) :
+    alookup (outs.foldl (fun acc pv => upsert acc (c, pv.1) pv.2) rep) (a, p) =
+      if c = a then (alookup outs p).orElse (fun _ => alookup rep (a, p)) else alookup rep (a, p) := by
+  induction outs generalizing rep with
+  | nil => simp
+  | cons e outs ih =>
+    obtain ⟨k, v⟩ := e
+    simp only [akeys_cons, List.nodup_cons] at hn
+    rw [List.foldl_cons, ih hn.2, alookup_upsert, alookup_cons]
+    by_cases hc : c = a
+    · subst hc
+      by_cases hk : k = p
+      · subst hk
+        have : alookup outs k = none := alookup_eq_none_iff.2 hn.1
+        simp [this]
+      · simp [hk]
+    · simp [hc]
+
+/-- keys after a sequence of `upsert`s. -/
+theorem mem_akeys_foldl_upsert (cs : List κ) (b : β) (m : List (κ × β)) (x : κ) :
+    x ∈ akeys (cs.foldl (fun acc c => upsert acc c b) m) ↔ x ∈ akeys m ∨ x ∈ cs := by
+  induction cs generalizing m with
+  | nil => simp
+  | cons c cs ih =>
+    rw [List.foldl_cons, ih, mem_akeys_upsert]
+    simp only [List.mem_cons]
+    constructor
+    · rintro ((h | h) | h)
+      · exact Or.inr (Or.inl h)
+      · exact Or.inl h
+      · exact Or.inr (Or.inr h)
+    · rintro (h | h | h)
+      · exact Or.inl (Or.inr h)
+      · exact Or.inl (Or.inl h)
+      · exact Or.inr h
+
+end Dict
+
+/-! ### the extent of a tick -/
+
+theorem mem_extent_iff (w : Wiring) (roots : List Comp) (c : Comp) :
+    c ∈ extent w roots ↔ ∃ r ∈ roots, c ∈ w.dependants r := by
+  unfold extent Ticker.startTick
+  simp only
+  suffices h : ∀ (rs : List Comp) (tu : List (Comp × Bool)),
+      c ∈ akeys (rs.foldl (fun acc r => (w.dependants r).foldl (fun acc c => upsert acc c false) acc) tu) ↔
+        c ∈ akeys tu ∨ ∃ r ∈ rs, c ∈ w.dependants r by
+    simpa using h roots []
+  intro rs
+  induction rs with
+  | nil => intro tu; simp
+  | cons r rs ih =>
+    intro tu
+    rw [List.foldl_cons, ih, mem_akeys_foldl_upsert]
+    simp only [List.mem_cons, exists_eq_or_imp]
+    exact or_assoc
+
+/-- the extent is closed under wires. -/
+theorem extent_closed {w : Wiring} {roots : List Comp} {a b : Comp} (ha : a ∈ extent w roots)
+    (he : w.Edge a b) : b ∈ extent w roots := by
+  rw [mem_extent_iff] at *
+  obtain ⟨r, hr, har⟩ := ha
+  exact ⟨r, hr, (Wiring.dependants_closed w r).2 a har b he⟩
+
+/-- dependants of components are components. -/
+theorem extent_sub_components {w : Wiring} {roots : List Comp} (hr : ∀ r ∈ roots, r ∈ w.components)
+    {c : Comp} (hc : c ∈ extent w roots) : c ∈ w.components := by
+  rw [mem_extent_iff] at hc
+  obtain ⟨r, hrr, hcr⟩ := hc
+  unfold Wiring.dependants at hcr
+  refine bfs_sound w.children (· ∈ w.components) ?_ w.bfsFuel [r] [] ?_ (by simp) c hcr
+  · intro d ch _ hch b hb
+    exact (Wiring.mem_components w b).2 (Or.inl (Wiring.children_subset_inputs hch b hb))
+  · intro x hx
+    rw [List.mem_singleton] at hx
+    exact hx ▸ hr r hrr
+
+theorem hroots_of_components {w : Wiring} {roots : List Comp} (hr : ∀ r ∈ roots, r ∈ w.components) :
+    ∀ c ∈ extent w roots, (w.ups c).isSome := by
+  intro c hc
+  exact (Wiring.ups_isSome_iff' w c).2 (extent_sub_components hr hc)
+
+/-! ### the effect of one dispatch -/
+
+theorem absorb_skip (st : FlatSt Val) (dev : DevFn Val) (c : Comp) (t : SimTime) :
+    st.absorb dev (.skip c t) = st := rfl
+
+/-- the outputs device `c` returns (as a dict) when updated from `st` with the changes `ins`. -/
+def outsOf (st : FlatSt Val) (dev : DevFn Val) (c : Comp) (t : SimTime) (ins : List (Port × Val)) :
+    List (Port × Val) :=
+  normDict (dev c t ((st.comp c).merge ins)).outs
+
+theorem nodup_akeys_outsOf (st : FlatSt Val) (dev : DevFn Val) (c : Comp) (t : SimTime)
+    (ins : List (Port × Val)) : (akeys (outsOf st dev c t ins)).Nodup :=
+  nodup_akeys_normDict _
+
+theorem react_eq (st : FlatSt Val) (dev : DevFn Val) (t : SimTime) (c : Comp)
+    (ins : List (Port × Val)) :
+    st.react dev t c ins = outChanges (st.comp c).lastOutputs (outsOf st dev c t ins) := rfl
+
+theorem reactWF (st : FlatSt Val) (dev : DevFn Val) (t : SimTime) : ReactWF (st.react dev t) :=
+  fun c ins => nodup_akeys_outChanges (nodup_akeys_outsOf st dev c t ins)
+
+theorem comp_absorb_input (st : FlatSt Val) (dev : DevFn Val) (c : Comp) (t : SimTime)
+    (ins : List (Port × Val)) (x : Comp) :
+    (st.absorb dev (.input c t ins)).comp x =
+      if c = x then { deviceInputs := (st.comp c).merge ins, lastOutputs := outsOf st dev c t ins }
+      else st.comp x := by
+  show agetD (upsert st.comps c _) x {} = _
+  rw [agetD, alookup_upsert]
+  split
+  · rfl
+  · rfl
+
+theorem reported_absorb_input (st : FlatSt Val) (dev : DevFn Val) (c : Comp) (t : SimTime)
+    (ins : List (Port × Val)) (a : Comp) (p : Port) :
+    alookup (st.absorb dev (.input c t ins)).reported (a, p) =
+      if c = a then (alookup (outsOf st dev c t ins) p).orElse (fun _ => alookup st.reported (a, p))
+      else alookup st.reported (a, p) :=
+  alookup_foldl_report c (nodup_akeys_outsOf st dev c t ins) st.reported a p
+
+theorem obs_absorb_input (st : FlatSt Val) (dev : DevFn Val) (c : Comp) (t : SimTime)
+    (ins : List (Port × Val)) :
+    (st.absorb dev (.input c t ins)).obs = st.obs ++ [(c, t, (st.comp c).merge ins)] := rfl
+
+/-- two states look the same from component `c`: same component state, same reports of `c`. -/
+def Agree (c : Comp) (s1 s2 : FlatSt Val) : Prop :=
+  s1.comp c = s2.comp c ∧ ∀ p, alookup s1.reported (c, p) = alookup s2.reported (c, p)
+
+theorem Agree.refl (c : Comp) (s : FlatSt Val) : Agree c s s := ⟨rfl, fun _ => rfl⟩
+
+theorem Agree.trans {c : Comp} {s1 s2 s3 : FlatSt Val} (h1 : Agree c s1 s2) (h2 : Agree c s2 s3) :
+    Agree c s1 s3 := ⟨h1.1.trans h2.1, fun p => (h1.2 p).trans (h2.2 p)⟩
+
+/-- a dispatch to another component is invisible from `c`. -/
+theorem absorb_agree_ne (st : FlatSt Val) (dev : DevFn Val) {d : Dispatch Val} {c : Comp}
+    (h : d.comp ≠ c) : Agree c (st.absorb dev d) st := by
+  cases d with
+  | skip c' t => exact Agree.refl _ _
+  | input c' t ins =>
+    simp only [Dispatch.comp] at h
+    refine ⟨?_, fun p => ?_⟩
+    · rw [comp_absorb_input, if_neg h]
+    · rw [reported_absorb_input, if_neg h]
+
+/-- what a dispatch does to its component depends only on what is visible from it. -/
+theorem absorb_congr (dev : DevFn Val) {s1 s2 : FlatSt Val} (d : Dispatch Val)
+    (h : Agree d.comp s1 s2) : Agree d.comp (s1.absorb dev d) (s2.absorb dev d) := by
+  cases d with
+  | skip c' t => exact h
+  | input c' t ins =>
+    simp only [Dispatch.comp] at h ⊢
+    refine ⟨?_, fun p => ?_⟩
+    · rw [comp_absorb_input, comp_absorb_input, if_pos rfl, if_pos rfl, outsOf, outsOf, h.1]
+    · rw [reported_absorb_input, reported_absorb_input, if_pos rfl, if_pos rfl, outsOf, outsOf,
+        h.1, h.2]
+
+/-! ### folding the dispatches of a trace -/
+
+@[simp] theorem afterTick_nil (st : FlatSt Val) (dev : DevFn Val) : st.afterTick dev [] = st := rfl
+
+theorem afterTick_cons_dispatch (st : FlatSt Val) (dev : DevFn Val) (d : Dispatch Val)
+    (tr : List (Ev Val)) :
+    st.afterTick dev (Ev.dispatch d :: tr) = (st.absorb dev d).afterTick dev tr := rfl
+
+theorem afterTick_cons_answer (st : FlatSt Val) (dev : DevFn Val) (a : Comp)
+    (ch : List (Port × Val)) (tr : List (Ev Val)) :
+    st.afterTick dev (Ev.answer a ch :: tr) = st.afterTick dev tr := rfl
+
+theorem count_tail {e : Ev Val} {tr : List (Ev Val)} {c : Comp}
+    (h : ((e :: tr).filter (Ev.isDispatchOf c)).length ≤ 1) :
+    (tr.filter (Ev.isDispatchOf c)).length ≤ 1 := by
+  rw [List.filter_cons] at h
+  split at h
+  · simp only [List.length_cons] at h; omega
+  · exact h
+
+theorem count_head {d : Dispatch Val} {tr : List (Ev Val)}
+    (h : ((Ev.dispatch d :: tr).filter (Ev.isDispatchOf d.comp)).length ≤ 1) :
+    dispatchOf tr d.comp = none := by
+  rw [List.filter_cons, if_pos (by simp [Ev.isDispatchOf])] at h
+  simp only [List.length_cons] at h
+  rw [dispatchOf_eq_none_iff]
+  intro d' hd' hc
+  have : Ev.dispatch d' ∈ tr.filter (Ev.isDispatchOf d.comp) :=
+    List.mem_filter.2 ⟨hd', by simp [Ev.isDispatchOf, hc]⟩
+  have := List.length_pos_of_mem this
+  omega
+
+/-- a component that is not dispatched is not touched. -/
+theorem afterTick_agree_none (dev : DevFn Val) {tr : List (Ev Val)} {c : Comp}
+    (h : dispatchOf tr c = none) (st : FlatSt Val) : Agree c (st.afterTick dev tr) st := by
+  induction tr generalizing st with
+  | nil => exact Agree.refl _ _
+  | cons e tr ih =>
+    cases e with
+    | answer a ch =>
+      rw [dispatchOf_cons_answer] at h
+      exact ih h st
+    | dispatch d =>
+      rw [dispatchOf_cons_dispatch] at h
+      by_cases hc : d.comp = c
+      · simp [hc] at h
+      · simp only [hc, if_false] at h
+        rw [afterTick_cons_dispatch]
+        exact (ih h _).trans (absorb_agree_ne st dev hc)
+
+/-- a component dispatched (at most) once sees exactly the effect of that dispatch on its
+pre-tick state. -/
+theorem afterTick_agree_some (dev : DevFn Val) {tr : List (Ev Val)} {c : Comp} {d : Dispatch Val}
+    (hcount : (tr.filter (Ev.isDispatchOf c)).length ≤ 1) (h : dispatchOf tr c = some d)
+    (st : FlatSt Val) : Agree c (st.afterTick dev tr) (st.absorb dev d) := by
+  induction tr generalizing st with
+  | nil => simp at h
+  | cons e tr ih =>
+    cases e with
+    | answer a ch =>
+      rw [dispatchOf_cons_answer] at h
+      exact ih (count_tail hcount) h st
+    | dispatch d' =>
+      rw [dispatchOf_cons_dispatch] at h
+      rw [afterTick_cons_dispatch]
+      by_cases hc : d'.comp = c
+      · simp only [hc, if_true, Option.some.injEq] at h
+        subst h
+        subst hc
+        exact afterTick_agree_none dev (count_head hcount) _
+      · simp only [hc, if_false] at h
+        have hdc : d.comp = c := (dispatchOf_eq_some h).2
+        refine (ih (count_tail hcount) h _).trans ?_
+        have := absorb_congr dev d (hdc ▸ absorb_agree_ne st dev hc)
+        rw [hdc] at this
+        exact this
+
+/-- every observation logged during the tick comes from an `Input` dispatch, and shows the
+pre-tick inputs overlaid with the changes. -/
+theorem obs_afterTick (dev : DevFn Val) {tr : List (Ev Val)}
+    (hcount : ∀ c, (tr.filter (Ev.isDispatchOf c)).length ≤ 1) (st : FlatSt Val)
+    {o : Comp × SimTime × List (Port × Val)} (ho : o ∈ (st.afterTick dev tr).obs) :
+    o ∈ st.obs ∨ ∃ c t ins, Ev.dispatch (.input c t ins) ∈ tr ∧ o = (c, t, (st.comp c).merge ins) := by
+  induction tr generalizing st with
+  | nil => exact Or.inl ho
+  | cons e tr ih =>
+    cases e with
+    | answer a ch =>
+      rw [afterTick_cons_answer] at ho
+      rcases ih (fun c => count_tail (hcount c)) st ho with h | ⟨c, t, ins, hm, he⟩
+      · exact Or.inl h
+      · exact Or.inr ⟨c, t, ins, List.mem_cons_of_mem _ hm, he⟩
+    | dispatch d =>
+      rw [afterTick_cons_dispatch] at ho
+      rcases ih (fun c => count_tail (hcount c)) _ ho with h | ⟨c, t, ins, hm, he⟩
+      · cases d with
+        | skip c' t' => exact Or.inl h
+        | input c' t' ins' =>
+          rw [obs_absorb_input, List.mem_append, List.mem_singleton] at h
+          rcases h with h | h
+          · exact Or.inl h
+          · exact Or.inr ⟨c', t', ins', by simp, h⟩
+      · refine Or.inr ⟨c, t, ins, List.mem_cons_of_mem _ hm, ?_⟩
+        have hne : d.comp ≠ c := by
+          intro hdc
+          have := dispatchOf_eq_none_iff.1 (count_head (hcount d.comp)) _ hm
+          exact this hdc.symm
+        rw [he, (absorb_agree_ne st dev hne).1]
+
+/-- wakeups are only added for dispatched components. -/
+theorem wake_afterTick (dev : DevFn Val) (tr : List (Ev Val)) (st : FlatSt Val) {c : Comp}
+    (hc : c ∈ akeys (st.afterTick dev tr).wake) :
+    c ∈ akeys st.wake ∨ ∃ d, Ev.dispatch d ∈ tr ∧ d.comp = c := by
+  induction tr generalizing st with
+  | nil => exact Or.inl hc
+  | cons e tr ih =>
+    cases e with
+    | answer a ch =>
+      rw [afterTick_cons_answer] at hc
+      rcases ih st hc with h | ⟨d, hm, he⟩
+      · exact Or.inl h
+      · exact Or.inr ⟨d, List.mem_cons_of_mem _ hm, he⟩
+    | dispatch d =>
+      rw [afterTick_cons_dispatch] at hc
+      rcases ih _ hc with h | ⟨d', hm, he⟩
+      · cases d with
+        | skip c' t' => exact Or.inl h
+        | input c' t' ins' =>
+          have hw : (st.absorb dev (.input c' t' ins')).wake =
+              match (dev c' t' ((st.comp c').merge ins')).callAt with
+              | some w => addWakeup st.wake c' w
+              | none => st.wake := rfl
+          rw [hw] at h
+          split at h
+          · rw [addWakeup, mem_akeys_upsert] at h
+            rcases h with h | h
+            · exact Or.inr ⟨.input c' t' ins', by simp, h.symm⟩
+            · exact Or.inl h
+          · exact Or.inl h
+      · exact Or.inr ⟨d', List.mem_cons_of_mem _ hm, he⟩
+
+/-! ### `Input` changes are dicts -/
+
+theorem sched_nodup {w : Wiring} {tk : Ticker Val} {l : List (Comp × Bool)}
+    {ds : List (Dispatch Val)} (h : Ticker.scheduleLoop w tk l = .ok ds)
+    (hin : ∀ c, (akeys (agetD tk.inputs c [])).Nodup) :
+    ∀ c t ins, Dispatch.input c t ins ∈ ds → (akeys ins).Nodup := by
+  intro c t ins hd
+  rw [(scheduleLoop_spec h).1] at hd
+  obtain ⟨e, _, he⟩ := List.mem_map.1 hd
+  rcases tk.decide_cases e.1 with ⟨h1, _⟩ | ⟨h1, _⟩
+  · rw [h1] at he; cases he; exact hin _
+  · rw [h1] at he; cases he
+
+/-- the accumulated inputs, and hence the changes carried by every `Input`, have unique keys. -/
+theorem ins_nodup {w : Wiring} (hw : RouterOK w) {react : React Val} {t : SimTime}
+    {roots : List Comp} {s : TickSys Val} (hs : s.Reachable w react t roots) :
+    (∀ c, (akeys (agetD s.tk.inputs c [])).Nodup) ∧
+      ∀ c t' ins, Ev.dispatch (.input c t' ins) ∈ s.trace → (akeys ins).Nodup := by
+  induction hs with
+  | init h =>
+    obtain ⟨ds, hsl, _, _, _, _, htr⟩ := TickSys.init_eq_ok h
+    obtain ⟨_, hin⟩ := TickSys.init_tk h
+    refine ⟨fun c => by rw [hin]; simp [agetD], ?_⟩
+    intro c t' ins hm
+    rw [htr] at hm
+    simp only [List.mem_map, Ev.dispatch.injEq, exists_eq_right] at hm
+    exact sched_nodup hsl (fun c => by simp [Ticker.startTick, agetD]) c t' ins hm
+  | @step s0 s1 i hs' h ih =>
+    obtain ⟨d, ds, hd, _, _, hsl, _, _, _, _, htr⟩ := TickSys.step_eq_ok h
+    obtain ⟨_, hin⟩ := TickSys.step_tk h hd
+    have hin' : ∀ c, (akeys (agetD (addInputs s0.tk.inputs
+        (w.route d.comp (answerOf react d))) c [])).Nodup := by
+      intro c
+      rw [agetD_addInputs _ (hw.route_wf _ _).1]
+      exact nodup_akeys_aupdate (ih.1 c) _
+    refine ⟨fun c => by rw [hin]; exact hin' c, ?_⟩
+    intro c t' ins hm
+    rw [htr] at hm
+    simp only [List.mem_append, List.mem_singleton, reduceCtorEq, or_false, List.mem_map,
+      Ev.dispatch.injEq, exists_eq_right] at hm
+    rcases hm with hm | hm
+    · exact ih.2 c t' ins hm
+    · exact sched_nodup hsl hin' c t' ins hm
+
+/-! ### a complete tick -/
+
+/-- the value component `a` reports as changed on port `p` in the trace, if any. -/
+def ansOf (react : React Val) (tr : List (Ev Val)) (a : Comp) (p : Port) : Option Val :=
+  (dispatchOf tr a).bind (fun d => alookup (answerOf react d) p)
+
+theorem fed_iff_ansOf {w : Wiring} (hw : RouterOK w) {react : React Val} {tr : List (Ev Val)}
+    {a : Comp} {p : Port} {c : Comp} {q : Port} (hc : w.Conn a p c q) (v : Val) :
+    Fed w react tr c q v ↔ ansOf react tr a p = some v := by
+  constructor
+  · rintro ⟨a', p', d, hc', hd, hv⟩
+    obtain ⟨rfl, rfl⟩ := hw.oneSource _ _ _ _ _ _ hc hc'
+    simp [ansOf, hd, hv]
+  · intro h
+    unfold ansOf at h
+    cases hd : dispatchOf tr a with
+    | none => simp [hd] at h
+    | some d =>
+      rw [hd] at h
+      exact ⟨a, p, d, hc, hd, by simpa using h⟩
+
+theorem dispatchOf_cases (tr : List (Ev Val)) (c : Comp) :
+    dispatchOf tr c = none ∨ (∃ t, dispatchOf tr c = some (.skip c t)) ∨
+      ∃ t ins, dispatchOf tr c = some (.input c t ins) := by
+  cases h : dispatchOf tr c with
+  | none => exact Or.inl rfl
+  | some d =>
+    have := (dispatchOf_eq_some h).2
+    cases d with
+    | skip c' t =>
+      simp only [Dispatch.comp] at this; subst this; exact Or.inr (Or.inl ⟨t, rfl⟩)
+    | input c' t ins =>
+      simp only [Dispatch.comp] at this; subst this; exact Or.inr (Or.inr ⟨t, ins, rfl⟩)
+
+theorem input_facts {w : Wiring} (hw : RouterOK w) {dev : DevFn Val} {st : FlatSt Val} {t : SimTime}
+    {roots : List Comp} {s : TickSys Val} (hs : s.Reachable w (st.react dev t) t roots)
+    {c : Comp} {t' : SimTime} {ins : List (Port × Val)}
+    (hd : dispatchOf s.trace c = some (.input c t' ins)) :
+    t' = t ∧ (akeys ins).Nodup ∧
+      ∀ q v, alookup ins q = some v ↔ Fed w (st.react dev t) s.trace c q v := by
+  obtain ⟨_, _, hsp⟩ := dispatch_spec hw (reactWF st dev t) hs hd
+  have hn := (ins_nodup hw hs).2 c t' ins (dispatchOf_eq_some hd).1
+  rcases hsp with ⟨ins', he, _, hfed⟩ | ⟨he, _⟩
+  · cases he; exact ⟨rfl, hn, hfed⟩
+  · cases he
+
+theorem not_input_facts {w : Wiring} (hw : RouterOK w) {dev : DevFn Val} {st : FlatSt Val}
+    {t : SimTime} {roots : List Comp} {s : TickSys Val}
+    (hs : s.Reachable w (st.react dev t) t roots) (hf : s.tk.toUpdate = []) {c : Comp}
+    (hd : dispatchOf s.trace c = none ∨ ∃ t', dispatchOf s.trace c = some (.skip c t')) :
+    ∀ q v, ¬ Fed w (st.react dev t) s.trace c q v := by
+  rcases hd with hd | ⟨t', hd⟩
+  · rintro q v ⟨a, p, d, hc, hda, _⟩
+    have hce := (dispatchOf_eq_none_iff_of_complete hw (reactWF st dev t) hs hf c).1 hd
+    have hae := (dispatch_spec hw (reactWF st dev t) hs hda).1
+    exact hce (extent_closed hae ⟨p, q, hc⟩)
+  · obtain ⟨_, _, hsp⟩ := dispatch_spec hw (reactWF st dev t) hs hd
+    rcases hsp with ⟨ins', he, _⟩ | ⟨_, _, hno⟩
+    · cases he
+    · exact hno
+
+theorem after_input {dev : DevFn Val} {st : FlatSt Val} {tr : List (Ev Val)} {c : Comp}
+    (hcount : (tr.filter (Ev.isDispatchOf c)).length ≤ 1) {t' : SimTime} {ins : List (Port × Val)}
+    (hd : dispatchOf tr c = some (.input c t' ins)) :
+    (st.afterTick dev tr).comp c =
+        { deviceInputs := (st.comp c).merge ins, lastOutputs := outsOf st dev c t' ins } ∧
+      ∀ p, alookup (st.afterTick dev tr).reported (c, p) =
+        (alookup (outsOf st dev c t' ins) p).orElse (fun _ => alookup st.reported (c, p)) := by
+  have := afterTick_agree_some dev hcount hd st
+  refine ⟨?_, fun p => ?_⟩
+  · rw [this.1, comp_absorb_input, if_pos rfl]
+  · rw [this.2, reported_absorb_input, if_pos rfl]
+
+theorem after_not_input {dev : DevFn Val} {st : FlatSt Val} {tr : List (Ev Val)} {c : Comp}
+    (hcount : (tr.filter (Ev.isDispatchOf c)).length ≤ 1)
+    (hd : dispatchOf tr c = none ∨ ∃ t', dispatchOf tr c = some (.skip c t')) :
+    Agree c (st.afterTick dev tr) st := by
+  rcases hd with hd | ⟨t', hd⟩
+  · exact afterTick_agree_none dev hd st
+  · exact afterTick_agree_some dev hcount hd st
+
+theorem ansOf_input {dev : DevFn Val} {st : FlatSt Val} {t : SimTime} {tr : List (Ev Val)}
+    {a : Comp} {ins : List (Port × Val)} (hd : dispatchOf tr a = some (.input a t ins)) (p : Port) :
+    ansOf (st.react dev t) tr a p =
+      alookup (outChanges (st.comp a).lastOutputs (outsOf st dev a t ins)) p := by
+  rw [ansOf, hd]; rfl
+
+theorem ansOf_not_input {react : React Val} {tr : List (Ev Val)} {a : Comp}
+    (hd : dispatchOf tr a = none ∨ ∃ t', dispatchOf tr a = some (.skip a t')) (p : Port) :
+    ansOf react tr a p = none := by
+  rcases hd with hd | ⟨t', hd⟩ <;> rw [ansOf, hd] <;> rfl
+
+/-- the ghost log after the tick: the value reported as changed in the tick, else the old one. -/
+theorem reported_after {w : Wiring} (hw : RouterOK w) {dev : DevFn Val} {st : FlatSt Val}
+    {t : SimTime} {roots : List Comp} {s : TickSys Val}
+    (hs : s.Reachable w (st.react dev t) t roots) (hsy : Synced w st) (a : Comp) (p : Port) :
+    alookup (st.afterTick dev s.trace).reported (a, p) =
+      (ansOf (st.react dev t) s.trace a p).orElse (fun _ => alookup st.reported (a, p)) := by
+  have hcount := (hs.inv.pre.count a).1
+  rcases dispatchOf_cases s.trace a with hd | ⟨t', hd⟩ | ⟨t', ins, hd⟩
+  · rw [(after_not_input hcount (Or.inl hd)).2, ansOf_not_input (Or.inl hd)]; rfl
+  · rw [(after_not_input hcount (Or.inr ⟨t', hd⟩)).2, ansOf_not_input (Or.inr ⟨t', hd⟩)]; rfl
+  · obtain ⟨rfl, _, _⟩ := input_facts hw hs hd
+    rw [(after_input hcount hd).2, ansOf_input hd]
+    have hno := nodup_akeys_outsOf st dev a t' ins
+    cases hch : alookup (outChanges (st.comp a).lastOutputs (outsOf st dev a t' ins)) p with
+    | some v =>
+      rw [((alookup_outChanges hno p v).1 hch).1]
+    | none =>
+      cases ho : alookup (outsOf st dev a t' ins) p with
+      | none => rfl
+      | some v =>
+        have hl : alookup (st.comp a).lastOutputs p = some v := by
+          apply Classical.byContradiction
+          intro hne
+          have := (alookup_outChanges hno p v).2 ⟨ho, hne⟩
+          rw [hch] at this; cases this
+        simp [hsy.lastSub a p v hl]
+
+/-- what a device is given on a wired port: the value reported as changed in the tick, else
+what it had. -/
+theorem given_value {w : Wiring} (hw : RouterOK w) {dev : DevFn Val} {st : FlatSt Val}
+    {t : SimTime} {roots : List Comp} {s : TickSys Val}
+    (hs : s.Reachable w (st.react dev t) t roots) {a : Comp} {p : Port} {c : Comp} {q : Port}
+    (hc : w.Conn a p c q) {t' : SimTime} {ins : List (Port × Val)}
+    (hd : dispatchOf s.trace c = some (.input c t' ins)) :
+    alookup ((st.comp c).merge ins) q =
+      (ansOf (st.react dev t) s.trace a p).orElse (fun _ => alookup (st.comp c).deviceInputs q) := by
+  obtain ⟨_, hn, hfed⟩ := input_facts hw hs hd
+  have : alookup ins q = ansOf (st.react dev t) s.trace a p :=
+    option_ext_some (fun v => (hfed q v).trans (fed_iff_ansOf hw hc v))
+  rw [DevComp.merge, alookup_aupdate_of_nodup _ hn, this]
+
+theorem ansOf_none_of_not_input {w : Wiring} (hw : RouterOK w) {dev : DevFn Val} {st : FlatSt Val}
+    {t : SimTime} {roots : List Comp} {s : TickSys Val}
+    (hs : s.Reachable w (st.react dev t) t roots) (hf : s.tk.toUpdate = [])
+    {a : Comp} {p : Port} {c : Comp} {q : Port} (hc : w.Conn a p c q)
+    (hd : dispatchOf s.trace c = none ∨ ∃ t', dispatchOf s.trace c = some (.skip c t')) :
+    ansOf (st.react dev t) s.trace a p = none := by
+  cases h : ansOf (st.react dev t) s.trace a p with
+  | none => rfl
+  | some v => exact absurd ((fed_iff_ansOf hw hc v).2 h) (not_input_facts hw hs hf hd q v)
+
+/-- **the core of C03**: what an updated device is given on a wired port is the latest report. -/
+theorem wire_input {w : Wiring} (hw : RouterOK w) {dev : DevFn Val} {st : FlatSt Val}
+    {t : SimTime} {roots : List Comp} {s : TickSys Val}
+    (hs : s.Reachable w (st.react dev t) t roots) (hsy : Synced w st)
+    {a : Comp} {p : Port} {c : Comp} {q : Port} (hc : w.Conn a p c q) {t' : SimTime}
+    {ins : List (Port × Val)} (hd : dispatchOf s.trace c = some (.input c t' ins)) :
+    alookup ((st.comp c).merge ins) q = alookup (st.afterTick dev s.trace).reported (a, p) := by
+  rw [given_value hw hs hc hd, reported_after hw hs hsy, hsy.wired a p c q hc]
+
+/-- a device that is not updated still holds the latest report on every wired port. -/
+theorem wire_not_input {w : Wiring} (hw : RouterOK w) {dev : DevFn Val} {st : FlatSt Val}
+    {t : SimTime} {roots : List Comp} {s : TickSys Val}
+    (hs : s.Reachable w (st.react dev t) t roots) (hf : s.tk.toUpdate = []) (hsy : Synced w st)
+    {a : Comp} {p : Port} {c : Comp} {q : Port} (hc : w.Conn a p c q)
+    (hd : dispatchOf s.trace c = none ∨ ∃ t', dispatchOf s.trace c = some (.skip c t')) :
+    alookup (st.comp c).deviceInputs q = alookup (st.afterTick dev s.trace).reported (a, p) := by
+  rw [reported_after hw hs hsy, ansOf_none_of_not_input hw hs hf hc hd, hsy.wired a p c q hc]; rfl
+
+theorem given_keys {w : Wiring} (hw : RouterOK w) {dev : DevFn Val} {st : FlatSt Val}
+    {t : SimTime} {roots : List Comp} {s : TickSys Val}
+    (hs : s.Reachable w (st.react dev t) t roots) (hsy : Synced w st) {c : Comp} {t' : SimTime}
+    {ins : List (Port × Val)} (hd : dispatchOf s.trace c = some (.input c t' ins)) {q : Port}
+    {v : Val} (h : alookup ((st.comp c).merge ins) q = some v) : ∃ a p, w.Conn a p c q := by
+  obtain ⟨_, hn, hfed⟩ := input_facts hw hs hd
+  rw [DevComp.merge, alookup_aupdate_of_nodup _ hn] at h
+  cases hi : alookup ins q with
+  | some v' =>
+    obtain ⟨a, p, _, hc, _⟩ := (hfed q v').1 hi
+    exact ⟨a, p, hc⟩
+  | none =>
+    rw [hi] at h
+    exact hsy.noExtra c q v h
+
+/-- the invariant is preserved by a complete tick. -/
+theorem synced_afterTick {w : Wiring} (hw : RouterOK w) {dev : DevFn Val} {st : FlatSt Val}
+    {t : SimTime} {roots : List Comp} {s : TickSys Val}
+    (hs : s.Reachable w (st.react dev t) t roots) (hf : s.tk.toUpdate = []) (hsy : Synced w st) :
+    Synced w (st.afterTick dev s.trace) := by
+  have hcount := fun c => (hs.inv.pre.count c).1
+  refine ⟨?_, ?_, ?_⟩
+  · intro a p c q hc
+    rcases dispatchOf_cases s.trace c with hd | ⟨t', hd⟩ | ⟨t', ins, hd⟩
+    · rw [(after_not_input (hcount c) (Or.inl hd)).1]
+      exact wire_not_input hw hs hf hsy hc (Or.inl hd)
+    · rw [(after_not_input (hcount c) (Or.inr ⟨t', hd⟩)).1]
+      exact wire_not_input hw hs hf hsy hc (Or.inr ⟨t', hd⟩)
+    · rw [(after_input (hcount c) hd).1]
+      exact wire_input hw hs hsy hc hd
+  · intro c q v h
+    rcases dispatchOf_cases s.trace c with hd | ⟨t', hd⟩ | ⟨t', ins, hd⟩
+    · rw [(after_not_input (hcount c) (Or.inl hd)).1] at h
+      exact hsy.noExtra c q v h
+    · rw [(after_not_input (hcount c) (Or.inr ⟨t', hd⟩)).1] at h
+      exact hsy.noExtra c q v h
+    · rw [(after_input (hcount c) hd).1] at h
+      exact given_keys hw hs hsy hd h
+  · intro c p v h
+    rcases dispatchOf_cases s.trace c with hd | ⟨t', hd⟩ | ⟨t', ins, hd⟩
+    · have hag := after_not_input (st := st) (dev := dev) (hcount c) (Or.inl hd)
+      rw [hag.1] at h
+      rw [hag.2]
+      exact hsy.lastSub c p v h
+    · have hag := after_not_input (st := st) (dev := dev) (hcount c) (Or.inr ⟨t', hd⟩)
+      rw [hag.1] at h
+      rw [hag.2]
+      exact hsy.lastSub c p v h
+    · have hag := after_input (st := st) (dev := dev) (hcount c) hd
+      rw [hag.1] at h
+      rw [hag.2]
+      simp only at h
+      simp [h]
+
+/-! ### whole runs -/
+
+theorem synced_empty (w : Wiring) : Synced w ({} : FlatSt Val) := by
+  refine ⟨fun a p c q _ => rfl, fun c q v h => ?_, fun c p v h => ?_⟩
+  · exact absurd h (by simp [FlatSt.comp, agetD])
+  · exact absurd h (by simp [FlatSt.comp, agetD])
+
+theorem mem_akeys_delWakeups {wk : Wakeups} {cs : List Comp} {c : Comp}
+    (h : c ∈ akeys (delWakeups wk cs)) : c ∈ akeys wk := by
+  induction cs generalizing wk with
+  | nil => exact h
+  | cons x cs ih =>
+    have : delWakeups wk (x :: cs) = delWakeups (aerase wk x) cs := rfl
+    rw [this] at h
+    exact mem_akeys_of_mem_akeys_aerase (ih h)
+
+theorem firstWakeups_sub {wk : Wakeups} {cs : List Comp} {m : Option SimTime}
+    (h : firstWakeups wk = (cs, m)) : ∀ c ∈ cs, c ∈ akeys wk := by
+  unfold firstWakeups at h
+  split at h
+  · cases h; simp
+  · cases h
+    intro c hc
+    obtain ⟨e, he, rfl⟩ := List.mem_map.1 hc
+    exact List.mem_map.2 ⟨e, (List.mem_filter.1 he).1, rfl⟩
+
+/-- after every tick of every run: the invariant holds and only components have wakeups. -/
+theorem run_inv {w : Wiring} (hw : RouterOK w) {devs : DevSeq Val} {t0 : SimTime} {n : Nat}
+    {st : FlatSt Val} {times : List SimTime} (hrun : FlatRun w devs t0 n st times) :
+    Synced w st ∧ ∀ c ∈ akeys st.wake, c ∈ w.components := by
+  induction hrun with
+  | initial htick =>
+    obtain ⟨s, hs, hf, rfl⟩ := htick
+    refine ⟨synced_afterTick hw hs hf (synced_empty w), fun c hc => ?_⟩
+    rcases wake_afterTick _ _ _ hc with h | ⟨d, hm, rfl⟩
+    · simp at h
+    · exact extent_sub_components (fun r h => h) (hs.inv.pre.disp_ext d hm).1
+  | @tick n st st' times cs m _ hfw htick ih =>
+    obtain ⟨s, hs, hf, rfl⟩ := htick
+    have hsy : Synced w { st with wake := delWakeups st.wake cs } :=
+      ⟨ih.1.wired, ih.1.noExtra, ih.1.lastSub⟩
+    refine ⟨synced_afterTick hw hs hf hsy, fun c hc => ?_⟩
+    rcases wake_afterTick _ _ _ hc with h | ⟨d, hm, rfl⟩
+    · exact ih.2 c (mem_akeys_delWakeups h)
+    · exact extent_sub_components (fun r h => ih.2 r (firstWakeups_sub hfw r h))
+        (hs.inv.pre.disp_ext d hm).1
 
 end Tickit.Sync
